@@ -18,7 +18,6 @@ RULES = {
     'C19.A': 'attributes() is the ordered argument-name list',
     'C19.T': 'amqp_type(name) is the wire type literal of that argument; '
              'one of the nine wire types; no stray type attribute',
-    'C19.N': '__annotations__ has exactly the argument names',
     'C19.S': 'every argument attribute is assigned on every normal path of '
              'the constructor',
     'C19.U': '__slots__ is a literal list of distinct identifiers',
@@ -216,21 +215,6 @@ def run(chk, ctx):
             chk.ob('C19.T', q + ' stray type attributes', not stray,
                    'no _<x> wire-type attribute without a slot' if not stray
                    else 'stray: %r' % (stray,), site=site)
-        # annotations
-        ann = ctx.static().class_attr(ci, '__annotations__')
-        keys = None
-        if isinstance(ann, T.Ref):
-            try:
-                keys = [k for k, _ in ctx.dict_value(
-                    ctx.static(), ctx.new_state(), ann, q +
-                    '.__annotations__')]
-            except AnalysisError:
-                keys = None
-        chk.ob('C19.N', q + '.__annotations__',
-               keys is not None and sorted(map(str, keys)) == sorted(slots)
-               and len(keys) == len(slots),
-               '__annotations__ keys = %r' % (keys,),
-               detail={'expected': slots}, site=site)
         # constructor assigns every slot
         init = prog.find_method(ci, '__init__')
         if init is None:
